@@ -1,5 +1,6 @@
 import VyxalModel.Lemmas.Balance
 import VyxalModel.Lemmas.BalanceShift
+import VyxalModel.Lemmas.BalanceCalls
 import VyxalModel.Model.Placed
 import VyxalModel.Model.Transpile
 import VyxalModel.Gen.Elements
@@ -20,8 +21,11 @@ import VyxalModel.Gen.CtxSites
   accepted around any accepted body, with `X` / `x` templates accepted at the depth where the
   templates place them.
 
-Calls are treated as neutral: that is exactly the statement that callee bodies are balanced, which is
-checked for program-defined functions by the `defn` case and for helpers by the table theorem.
+In `balanced_sound` calls are treated as neutral.  `balanced_sound_calls` (end of the file) removes that assumption: an
+execution may call — to any depth, recursively — the functions and lambdas the code defines and the repository's helpers;
+those bodies are *checked* (`defsL_ok`: every `def` the checker reaches is accepted as a function body;
+`helper_functions_balanced` for the helpers) and the soundness induction runs over the derivation, calls included
+(`Lemmas/BalanceCalls.lean`).
 -/
 namespace C12
 open Bal Vy PyAst
@@ -906,5 +910,150 @@ theorem transpiled_program_restores_depths (env : TEnv) (hT : TablesBalanced env
 theorem gen_tables_balanced (env : TEnv) (he : env.elements = Gen.elements) (hm : env.modifiers = Gen.modifiers) : TablesBalanced env := by
   unfold TablesBalanced
   rw [he, hm, List.all_append, element_templates_balanced, modifier_templates_balanced]; rfl
+
+/-! ## calls made explicit: callee bodies are checked, not assumed neutral -/
+
+mutual
+/-- the function bodies whose `def` the checker reaches (code after an unconditional exit is not reached — and never runs) -/
+def defsS (lb fb : Option D4) (cur : D4) : Sk → List (List Sk)
+  | .ifS t e => defsL lb fb cur t ++ defsL lb fb cur e
+  | .loop b => defsL (some cur) fb cur b
+  | .defn b => b :: defsL none (some D4.zero) D4.zero b
+  | .ev _ => []
+  | .other => []
+  | .unknown => []
+  | .brk => []
+  | .cont => []
+  | .ret => []
+def defsL (lb fb : Option D4) (cur : D4) : List Sk → List (List Sk)
+  | [] => []
+  | s :: rest =>
+    defsS lb fb cur s ++
+      (match chkS lb fb cur s with
+       | some (some d) => defsL lb fb d rest
+       | _ => [])
+end
+
+theorem balancedFn_FnOK (body : List PyStmt) (h : balancedFn body = true) : FnOK (skelL body) := by
+  unfold balancedFn at h
+  cases hc : chkL none (some D4.zero) D4.zero (skelL body) with
+  | none => simp [hc] at h
+  | some r =>
+    refine ⟨r, hc, ?_⟩
+    intro d hd; subst hd
+    simpa [hc] using h
+
+theorem chkS_defn {lb fb cur b r} (h : chkS lb fb cur (.defn b) = some r) : FnOK b := by
+  simp only [chkS] at h
+  cases hb : chkL none (some D4.zero) D4.zero b with
+  | none => simp [hb] at h
+  | some o =>
+    refine ⟨o, hb, ?_⟩
+    intro d hd; subst hd
+    simp only [hb] at h
+    split at h
+    · assumption
+    · simp at h
+
+mutual
+/-- **every function the accepted code can define is itself accepted as a function body** (nested definitions included) -/
+theorem defsS_ok : ∀ (s : Sk) (lb fb : Option D4) (cur : D4) (r : Option D4), chkS lb fb cur s = some r →
+    ∀ b ∈ defsS lb fb cur s, FnOK b
+  | .ifS t e, lb, fb, cur, r, h, b, hb => by
+      obtain ⟨x, y, hx, hy, _⟩ := chkS_if h
+      simp only [defsS, List.mem_append] at hb
+      rcases hb with hb | hb
+      · exact defsL_ok t lb fb cur x hx b hb
+      · exact defsL_ok e lb fb cur y hy b hb
+  | .loop body, lb, fb, cur, r, h, b, hb => by
+      obtain ⟨_, hc⟩ := chkS_loop h
+      simp only [defsS] at hb
+      rcases hc with hc | hc
+      · exact defsL_ok body (some cur) fb cur _ hc b hb
+      · exact defsL_ok body (some cur) fb cur _ hc b hb
+  | .defn body, lb, fb, cur, r, h, b, hb => by
+      have hok := chkS_defn h
+      simp only [defsS, List.mem_cons] at hb
+      rcases hb with rfl | hb
+      · exact hok
+      · obtain ⟨o, ho, _⟩ := hok
+        exact defsL_ok body none (some D4.zero) D4.zero o ho b hb
+  | .ev _, _, _, _, _, _, b, hb => by simp [defsS] at hb
+  | .other, _, _, _, _, _, b, hb => by simp [defsS] at hb
+  | .unknown, _, _, _, _, _, b, hb => by simp [defsS] at hb
+  | .brk, _, _, _, _, _, b, hb => by simp [defsS] at hb
+  | .cont, _, _, _, _, _, b, hb => by simp [defsS] at hb
+  | .ret, _, _, _, _, _, b, hb => by simp [defsS] at hb
+theorem defsL_ok : ∀ (l : List Sk) (lb fb : Option D4) (cur : D4) (r : Option D4), chkL lb fb cur l = some r →
+    ∀ b ∈ defsL lb fb cur l, FnOK b
+  | [], _, _, _, _, _, b, hb => by simp [defsL] at hb
+  | s :: rest, lb, fb, cur, r, h, b, hb => by
+      simp only [defsL, List.mem_append] at hb
+      rcases chkL_cons h with ⟨d, hsd, hrest⟩ | ⟨hsn, _⟩
+      · rcases hb with hb | hb
+        · exact defsS_ok s lb fb cur _ hsd b hb
+        · simp only [hsd] at hb
+          exact defsL_ok rest lb fb d r hrest b hb
+      · rcases hb with hb | hb
+        · exact defsS_ok s lb fb cur _ hsn b hb
+        · simp [hsn] at hb
+end
+
+/-- the helpers of the repository that touch the four lists, as callable bodies -/
+def helperBodies : List (List Sk) :=
+  (Gen.ctxSites.filter (fun f => f.1 != "main.execute_vyxal")).map (fun f => skelL f.2)
+
+theorem helperBodies_ok : ∀ b ∈ helperBodies, FnOK b := by
+  intro b hb
+  simp only [helperBodies, List.mem_map] at hb
+  obtain ⟨f, hf, rfl⟩ := hb
+  have := List.all_eq_true.mp helper_functions_balanced f hf
+  exact balancedFn_FnOK f.2 this
+
+/-- **soundness with calls**: accepted code restores the four depths on every normally finishing execution in which every
+    statement may call — any number of times, to any depth, recursively — the functions and lambdas the code defines and
+    the repository's helpers.  Nothing is assumed about callees: those bodies are accepted by the checker
+    (`defsL_ok`, `helper_functions_balanced`), and the induction is over the derivation, which contains every call. -/
+theorem balanced_sound_calls (prog : List PyStmt) (h : balancedTop prog = true) (c c' : D4)
+    (hx : ExecLF (defsL none none D4.zero (skelL prog) ++ helperBodies) (skelL prog) c c' .normal) : c' = c := by
+  have hc : chkL none none D4.zero (skelL prog) = some (some D4.zero) := by
+    simpa [balancedTop] using h
+  have hF : ∀ b ∈ defsL none none D4.zero (skelL prog) ++ helperBodies, FnOK b := by
+    intro b hb
+    rcases List.mem_append.mp hb with hb | hb
+    · exact defsL_ok _ none none D4.zero _ hc b hb
+    · exact helperBodies_ok b hb
+  obtain ⟨d, hd, hr⟩ := soundLF _ hF hx none none D4.zero (some D4.zero) hc
+  have : d = D4.zero := by simpa using hd.symm
+  subst this
+  exact Rel_zero hr
+
+/-- … for every transpiled program (tree-level theorem composed with the soundness with calls) -/
+theorem transpiled_program_restores_depths_calls (env : TEnv) (hT : TablesBalanced env) (prog : List Structure)
+    (hp : bplL .plain prog = true) (code : List PyStmt) (ht : transpileAst env prog = .ok code) (c c' : D4)
+    (hx : ExecLF (defsL none none D4.zero (skelL code) ++ helperBodies) (skelL code) c c' .normal) : c' = c :=
+  balanced_sound_calls code (transpile_balanced env hT prog hp code ht) c c' hx
+
+/-- non-vacuity: a function that pushes and pops a context value and calls itself in between; the program defines it and
+    calls it (the derivation runs `f` → `f` → end) -/
+example :
+    let body : List Sk := [.ev ⟨1, 0, 0, 0⟩, .other, .ev ⟨-1, 0, 0, 0⟩]
+    let prog : List Sk := [.defn body, .other]
+    chkL none none D4.zero prog = some (some D4.zero) ∧ defsL none none D4.zero prog = [body] ∧
+    ExecLF [body] prog D4.zero D4.zero .normal := by
+  intro body prog
+  have run : ∀ (c : D4), CallsF [body] (c.add ⟨1, 0, 0, 0⟩) (c.add ⟨1, 0, 0, 0⟩) →
+      ExecLF [body] body c ((c.add ⟨1, 0, 0, 0⟩).add ⟨-1, 0, 0, 0⟩) .normal :=
+    fun c hc => .consN (.ev _ _) (.consN (.other hc) (.consN (.ev _ _) (.nil _)))
+  have back : ∀ (c : D4), (c.add ⟨1, 0, 0, 0⟩).add ⟨-1, 0, 0, 0⟩ = c := by
+    intro c; cases c; simp only [D4.add, D4.mk.injEq]; omega
+  have inner : ExecLF [body] body (D4.zero.add ⟨1, 0, 0, 0⟩) (D4.zero.add ⟨1, 0, 0, 0⟩) .normal := by
+    have := run (D4.zero.add ⟨1, 0, 0, 0⟩) (.done _)
+    rwa [back] at this
+  have outer : ExecLF [body] body D4.zero D4.zero .normal := by
+    have := run D4.zero (.call (List.mem_singleton.mpr rfl) inner (Or.inl rfl) (.done _))
+    rwa [back] at this
+  refine ⟨by decide, rfl, ?_⟩
+  exact .consN (.defn _ _) (.consN (.other (.call (List.mem_singleton.mpr rfl) outer (Or.inl rfl) (.done _))) (.nil _))
 
 end C12
